@@ -174,7 +174,7 @@ pub fn main() {
             } else {
                 Mode::Random
             };
-            exit(shuttle_mode::run(spec, rng::derive(rng::derive(seed, 0x5C4E_D01E), index), iters, mode, arg_val(&args, "--persist")));
+            exit(shuttle_mode::run(spec, c18, rng::derive(rng::derive(seed, 0x5C4E_D01E), index), iters, mode, arg_val(&args, "--persist")));
         }
         "selfcheck" => exit(selfcheck()),
         other => {
